@@ -4,11 +4,13 @@
 //   sp.RxC     all 0/1 patterns of an R x C matrix: SparseMatrix build (two insertion orders) / transpose / replicate with
 //              position coded values; SparseMatrixGraph vs reference column graph; connected() vs union-find;
 //              ReverseCuthillMcKee perm/invp; Envelope set/cholDec/solves/inverse/copy vs dense LDL' of the permuted
-//              normal matrix for three small-integer value families
+//              normal matrix for three small-integer value families x four scales of the coefficients (1, 1e3, 1e-2, 1e-5) with
+//              cholDec(tol) given the tolerance scaled with the normal matrix
 //   sp.dim0    the same pipeline on matrices without rows or columns (each case may abort)
 //   sp.svector SparseVector growth, IntegerList
 //   bd         all block layouts (compositions of n<=5) x all band widths x 2 value families x which blocks are not
-//              positive definite: BlockDiagonal::cholDec, replicate, UpperBlockDiagonal, Envelope(BlockDiagonal)
+//              positive definite: BlockDiagonal::cholDec, replicate, UpperBlockDiagonal, Envelope(BlockDiagonal); positive definite
+//              layouts also at four scales of the matrix: Envelope cholDec(tol scaled) / solve / inverse vs the dense results
 //   hom.M      Homogenization of all 0/1 patterns of an M x 2 design matrix x all layouts of dimension M
 #include "libmc.h"
 #include <gnu_gama/sparse/smatrix.h>
@@ -87,16 +89,27 @@ static void sparse_part(int r, int c, long long p) {
 struct UF { std::vector<int> p; UF(int n) : p(n) { for (int i = 0; i < n; i++) p[i] = i; } int f(int x) { while (p[x] != x) x = p[x] = p[p[x]]; return x; } void u(int a, int b) { p[f(a)] = f(b); } };
 
 // ------------------------------------------------------------------ graph, ordering, envelope
-static void envelope_part(int r, int c, long long p, int fam, const SG& G, const RCM& ord) {
-  std::unique_ptr<SM> s(build(r, c, p, false, [fam](int i, int j) { return famv(fam, i, j); }));
+// scale dimension: the design matrix is famv * SCALES[si]; the caller of cholDec(tol) scales the tolerance with the normal matrix
+// (tol = sqrt(eps) * scale^2; scale 1 uses the default argument).  The reference stays the exact integer problem: pivots, solutions
+// and inverse elements of the library are brought back to unit scale (d / s^2, x * s^2, Z * s^2) before they are compared.
+static const double SCALES[4] = {1.0, 1e3, 1e-2, 1e-5};
+static const char* SCALE_NAME[4] = {"1", "1e3", "1e-2", "1e-5"};
+static void envelope_part(int r, int c, long long p, int fam, int si, const SG& G, const RCM& ord) {
+  const double sc = SCALES[si]; const LD s2 = (LD)sc * (LD)sc;
+  const double ctol = 1.4901161193847656e-08 * sc * sc;     // sqrt(DBL_EPSILON) * scale^2
+  auto factor = [&](Env& e) { if (si == 0) e.cholDec(); else e.cholDec(ctol); };
+  std::unique_ptr<SM> s(build(r, c, p, false, [fam, sc](int i, int j) { return famv(fam, i, j) * sc; }));
   std::vector<int> perm(c + 1); for (int k = 1; k <= c; k++) perm[k] = ord.perm(k);
   // permuted design matrix and normal matrix (exact integers)
   IMat Ap(r, c); for (int i = 0; i < r; i++) for (int k = 0; k < c; k++) Ap(i, k) = bit(p, r, c, i, perm[k + 1] - 1) ? (I64)famv(fam, i, perm[k + 1] - 1) : 0;
   LMat N(c, c); for (int a = 0; a < c; a++) for (int b = 0; b < c; b++) { I64 t = 0; for (int i = 0; i < r; i++) t += Ap(i, a) * Ap(i, b); N(a, b) = (LD)t; }
   std::vector<char> dep(c, 0); int nul = 0;
   { int prev = 0; for (int k = 1; k <= c; k++) { IMat S(r, k); for (int i = 0; i < r; i++) for (int j = 0; j < k; j++) S(i, j) = Ap(i, j); int rk = r ? rank(S) : 0; if (rk == prev) { dep[k - 1] = 1; nul++; } prev = rk; } }
-  g_cls = std::string(nul ? "singular" : "regular") + "|fam" + std::to_string(fam);
-  O("envelope:nullity=" + std::to_string(nul));
+  g_cls = std::string(nul ? "singular" : "regular") + "|fam" + std::to_string(fam) + (si ? std::string("|scale") + SCALE_NAME[si] : std::string());
+  O("envelope:nullity=" + std::to_string(nul) + (si ? std::string(":scale") + SCALE_NAME[si] : std::string()));
+  // entry of the (scaled) normal matrix as the library must hold it: exact for the scales with exact products, else to a few ulp of the row sum
+  const LD nmax = std::max<LD>(1, maxabs(N));
+  auto isN = [&](double v, int a, int b) { return si <= 1 ? v == (double)(N(a - 1, b - 1) * s2) : fabsl((LD)v - N(a - 1, b - 1) * s2) <= 1e-14L * s2 * nmax; };
   C("transitions");
   Env env(s.get(), &G, &ord);
   if ((int)env.dim() != c) { bad("envelope", "Envelope::set", "", "dim"); return; }
@@ -111,7 +124,7 @@ static void envelope_part(int r, int c, long long p, int fam, const SG& G, const
       bool inside = b >= first[a];
       if (inside != (e1 != nullptr)) { bad("envelope", "Envelope::element", "", "null/non-null does not match begin/end"); return; }
       double v = e1 ? *e1 : 0.0;
-      if (v != (double)N(a - 1, b - 1)) { bad("envelope", "Envelope::set", "", "entry (" + std::to_string(a) + "," + std::to_string(b) + ") = " + str(v) + " expected " + str((double)N(a - 1, b - 1)) + (e1 ? "" : " (outside the envelope)")); return; }
+      if (!isN(v, a, b)) { bad("envelope", "Envelope::set", "", "entry (" + std::to_string(a) + "," + std::to_string(b) + ") = " + str(v) + " expected " + str((double)(N(a - 1, b - 1) * s2)) + (e1 ? "" : " (outside the envelope)")); return; }
     }
   }
   // copies
@@ -134,14 +147,14 @@ static void envelope_part(int r, int c, long long p, int fam, const SG& G, const
     dr[a] = dep[a] ? 0 : t;
   }
   C("transitions");
-  Env ch(env); ch.cholDec();
+  Env ch(env); factor(ch);
   if ((int)ch.defect() != nul) bad("envelope", "Envelope::defect", "", "defect " + std::to_string(ch.defect()) + " exact nullity " + std::to_string(nul) + " perm " + join(std::vector<int>(perm.begin() + 1, perm.end())));
   // copies stay independent when one of them is factored in place, and a copy of a factor is a factor
-  { Env c2(env); c2.cholDec(); Env c3; c3 = env; c3.cholDec(); Env c4(ch); Env c5; c5 = ch; C("transitions", 4);
+  { Env c2(env); factor(c2); Env c3; c3 = env; factor(c3); Env c4(ch); Env c5; c5 = ch; C("transitions", 4);
     bool same = true, untouched = true;
     for (int a = 1; a <= c; a++) for (int b = 1; b <= a; b++) {
       const double* e0 = env.element(a, b); const double* x = ch.element(a, b);
-      if ((e0 ? *e0 : 0.0) != (double)N(a - 1, b - 1)) untouched = false;
+      if (!isN(e0 ? *e0 : 0.0, a, b)) untouched = false;
       for (const Env* o : {&c2, &c3, &c4, &c5}) { const double* y = o->element(a, b); if ((x == nullptr) != (y == nullptr) || (x && *x != *y)) same = false; }
     }
     if (!untouched) bad("envelope", "Envelope::copy", "source-changed-by-cholDec-of-copy", "factoring a copy changed the original");
@@ -152,7 +165,7 @@ static void envelope_part(int r, int c, long long p, int fam, const SG& G, const
   for (int a = 1; a <= c; a++) {
     double d = ch.diagonal(a);
     if ((d == 0) != (dep[a - 1] != 0)) { bad("envelope", "Envelope::cholDec", "zero-pivot-position", "pivot " + std::to_string(a) + " = " + str(d) + " but the column is " + (dep[a - 1] ? "dependent on" : "independent of") + " its predecessors"); return; }
-    if (fabsl(d - dr[a - 1]) > 1e-11 * scale) { bad("envelope", "Envelope::cholDec", "D", "pivot " + std::to_string(a) + " = " + str(d) + " reference " + str((double)dr[a - 1])); return; }
+    if (fabsl((LD)d / s2 - dr[a - 1]) > 1e-11 * scale) { bad("envelope", "Envelope::cholDec", "D", "pivot " + std::to_string(a) + " = " + str(d) + " reference " + str((double)(dr[a - 1] * s2))); return; }
     for (int b = 1; b < a; b++) { const double* e = ch.element(a, b); double l = e ? *e : 0.0; if (fabsl(l - Lr(a - 1, b - 1)) > 1e-11 * scale) { bad("envelope", "Envelope::cholDec", "L", "L(" + std::to_string(a) + "," + std::to_string(b) + ") = " + str(l) + " reference " + str((double)Lr(a - 1, b - 1))); return; } }
   }
   // partial solves
@@ -166,7 +179,7 @@ static void envelope_part(int r, int c, long long p, int fam, const SG& G, const
       for (int k = 0; k < n; k++) if (fabsl(ref[k] - rhs[k]) > 1e-10 * std::max<LD>(1, fabsl(ref[k]))) { bad("envelope", "Envelope::lowerSolve", "", "range " + std::to_string(start) + ".." + std::to_string(stop) + " component " + std::to_string(k + 1) + " = " + str(rhs[k]) + " reference " + str((double)ref[k])); break; } }
     { std::unique_ptr<double[]> rhs(new double[n]); for (int k = 0; k < n; k++) rhs[k] = b0[k];
       C("transitions"); ch.diagonalSolve(start, stop, rhs.get());
-      for (int k = 0; k < n; k++) { LD ref = dr[start - 1 + k] != 0 ? b0[k] / dr[start - 1 + k] : 0; if (fabsl(ref - rhs[k]) > 1e-10 * std::max<LD>(1, fabsl(ref))) { bad("envelope", "Envelope::diagonalSolve", "", "range " + std::to_string(start) + ".." + std::to_string(stop)); break; } } }
+      for (int k = 0; k < n; k++) { LD ref = dr[start - 1 + k] != 0 ? b0[k] / dr[start - 1 + k] : 0; if (fabsl(ref - rhs[k] * s2) > 1e-10 * std::max<LD>(1, fabsl(ref))) { bad("envelope", "Envelope::diagonalSolve", "", "range " + std::to_string(start) + ".." + std::to_string(stop)); break; } } }
     if (start == 1) { std::unique_ptr<double[]> rhs(new double[n]); for (int k = 0; k < n; k++) rhs[k] = b0[k];
       C("transitions"); ch.upperSolve(1, stop, rhs.get());
       std::vector<LD> ref(b0.begin(), b0.end());
@@ -183,7 +196,7 @@ static void envelope_part(int r, int c, long long p, int fam, const SG& G, const
     std::vector<double> b(c, 0.0); if (bi < c) b[bi] = 1; else for (int k = 0; k < c; k++) b[k] = (k % 2 ? -1.0 : 1.0) * (k + 2);
     std::unique_ptr<double[]> rhs(new double[c]); for (int k = 0; k < c; k++) rhs[k] = b[k];
     C("transitions"); ch.solve(rhs.get(), c);
-    for (int a = 0; a < c; a++) { LD ref = 0; for (int k = 0; k < c; k++) ref += Gm(a, k) * b[k]; if (!(fabsl(ref - rhs[a]) <= tol * (c + 2))) { bad("envelope", "Envelope::solve", "", "x(" + std::to_string(a + 1) + ") = " + str(rhs[a]) + " reference " + str((double)ref) + " perm " + join(std::vector<int>(perm.begin() + 1, perm.end()))); bi = c + 1; break; } }
+    for (int a = 0; a < c; a++) { LD ref = 0; for (int k = 0; k < c; k++) ref += Gm(a, k) * b[k]; if (!(fabsl(ref - rhs[a] * s2) <= tol * (c + 2))) { bad("envelope", "Envelope::solve", "", "x(" + std::to_string(a + 1) + ") = " + str(rhs[a]) + " reference " + str((double)(ref / s2)) + " perm " + join(std::vector<int>(perm.begin() + 1, perm.end()))); bi = c + 1; break; } }
   }
   for (int self = 0; self < 2; self++) {
     C("transitions");
@@ -193,7 +206,7 @@ static void envelope_part(int r, int c, long long p, int fam, const SG& G, const
     for (int a = 1; a <= c && okz; a++) for (int b = 1; b <= a; b++) {
       const double* z = Z.element(a, b); const double* l = ch.element(a, b);
       if ((z == nullptr) != (l == nullptr)) { bad("envelope", "Envelope::inverse", "", "envelope of the inverse differs from the envelope of the factor"); okz = false; break; }
-      if (z && !(fabsl(*z - Gm(a - 1, b - 1)) <= tol)) { bad("envelope", std::string("Envelope::inverse") + (self ? "(self)" : ""), "", "Z(" + std::to_string(a) + "," + std::to_string(b) + ") = " + str(*z) + " reference " + str((double)Gm(a - 1, b - 1)) + " perm " + join(std::vector<int>(perm.begin() + 1, perm.end()))); okz = false; break; }
+      if (z && !(fabsl(*z * s2 - Gm(a - 1, b - 1)) <= tol)) { bad("envelope", std::string("Envelope::inverse") + (self ? "(self)" : ""), "", "Z(" + std::to_string(a) + "," + std::to_string(b) + ") = " + str(*z) + " reference " + str((double)(Gm(a - 1, b - 1) / s2)) + " (cholDec tolerance " + (si ? str(ctol) : std::string("default")) + ")" + " perm " + join(std::vector<int>(perm.begin() + 1, perm.end()))); okz = false; break; }
     }
   }
 }
@@ -223,7 +236,7 @@ static void pattern_case(int r, int c, long long p) {
   std::vector<int> seen(c + 1, 0);
   if (okp) for (int k = 1; k <= c; k++) { int q = ord.perm(k); if (q < 1 || q > c || seen[q]++) { okp = false; break; } if (ord.invp(q) != k) { okp = false; break; } }
   if (!okp) { std::vector<int> pp, ip; for (int k = 1; k <= c && k < ord.perm.dim(); k++) { pp.push_back(ord.perm(k)); ip.push_back(ord.invp(k)); } bad("ordering", "ReverseCuthillMcKee", "", "perm {" + join(pp) + "} invp {" + join(ip) + "} is not a permutation with its inverse"); return; }
-  for (int fam = 0; fam < 3; fam++) envelope_part(r, c, p, fam, G, ord);
+  for (int si = 0; si < 4; si++) for (int fam = 0; fam < 3; fam++) envelope_part(r, c, p, fam, si, G, ord);
   if (ctx().samples < 3 && r == 4 && c == 4 && comps == 2 && p % 4099 == 7) X("pattern " + patstr(r, c, p) + " components 2 perm " + [&] { std::vector<int> pp; for (int k = 1; k <= c; k++) pp.push_back(ord.perm(k)); return join(pp); }());
 }
 
@@ -366,6 +379,40 @@ static void bd_case(long long idx) {
         LMat Lm(n, n), Dm(n, n); for (int a = 1; a <= n; a++) { Lm(a - 1, a - 1) = 1; Dm(a - 1, a - 1) = ch.diagonal(a); for (int b = 1; b < a; b++) { const double* e = ch.element(a, b); Lm(a - 1, b - 1) = e ? *e : 0; } }
         LMat P = mul(mul(Lm, Dm), tr(Lm)); LD e = 0; for (size_t t = 0; t < P.a.size(); t++) e = std::max(e, fabsl(P.a[t] - Cd.a[t]));
         if (ch.defect() != 0 || !(e <= 1e-12)) bad("envelope", "Envelope::cholDec", "covariance", "defect " + std::to_string(ch.defect()) + " max |LDL'-C| " + str((double)e));
+      }
+    }
+  }
+  // Envelope(BlockDiagonal) of the positive definite layouts at four scales of the matrix (scale^2 of SCALES: 1, 1e6, 1e-4, 1e-10),
+  // cholDec with the tolerance scaled by the caller: factor, defect, solve and inverse against the dense long double results
+  if (l.badblock.empty()) for (int si = 0; si < 4; si++) {
+    const double t = SCALES[si] * SCALES[si]; const double ctol = 1.4901161193847656e-08 * t;
+    std::vector<LMat> Bs = Bk; for (auto& M : Bs) for (auto& v : M.a) v = (LD)((double)v * t);
+    std::unique_ptr<BD> bs(make_bd(l, Bs));
+    LMat Cs(n, n); { int r0 = 0; for (int k = 0; k < B; k++) { for (int i = 0; i < l.dim[k]; i++) for (int j = 0; j < l.dim[k]; j++) Cs(r0 + i, r0 + j) = Bs[k](i, j); r0 += l.dim[k]; } }
+    LMat Ci; if (!inverse(Cs, Ci)) { bad("envelope", "harness", "reference-inverse-failed", "layout not invertible: " + laystr(l)); break; }
+    const std::string cls = g_cls + (si ? std::string("|scale") + SCALE_NAME[si] + "^2" : std::string());
+    Env ch(*bs); C("transitions", 2);
+    if (si == 0) ch.cholDec(); else ch.cholDec(ctol);
+    O("envelope(BlockDiagonal):defect=" + std::to_string(ch.defect()) + (si ? std::string(":scale") + SCALE_NAME[si] + "^2" : std::string()));
+    if ((int)ch.dim() != n || ch.defect() != 0) { bad("envelope", "Envelope::cholDec", "covariance|" + cls, "dim " + std::to_string(ch.dim()) + " defect " + std::to_string(ch.defect()) + " for " + laystr(l)); continue; }
+    LMat Lm(n, n), Dm(n, n); for (int a = 1; a <= n; a++) { Lm(a - 1, a - 1) = 1; Dm(a - 1, a - 1) = ch.diagonal(a); for (int b = 1; b < a; b++) { const double* e = ch.element(a, b); Lm(a - 1, b - 1) = e ? *e : 0; } }
+    LMat P = mul(mul(Lm, Dm), tr(Lm)); LD e = 0; for (size_t q = 0; q < P.a.size(); q++) e = std::max(e, fabsl(P.a[q] - Cs.a[q]));
+    if (!(e <= 1e-12L * maxabs(Cs))) bad("envelope", "Envelope::cholDec", "covariance|" + cls, "max |LDL'-C| " + str((double)e) + " for " + laystr(l));
+    const LD itol = 1e-11L * maxabs(Ci);
+    for (int bi = 0; bi <= n; bi++) {
+      std::vector<double> b(n, 0.0); if (bi < n) b[bi] = 1; else for (int k = 0; k < n; k++) b[k] = (k % 2 ? -1.0 : 1.0) * (k + 2);
+      std::unique_ptr<double[]> rhs(new double[n]); for (int k = 0; k < n; k++) rhs[k] = b[k];
+      C("transitions"); ch.solve(rhs.get(), n);
+      for (int a = 0; a < n; a++) { LD ref = 0; for (int k = 0; k < n; k++) ref += Ci(a, k) * b[k]; if (!(fabsl(ref - rhs[a]) <= itol * (n + 2))) { bad("envelope", "Envelope::solve", "covariance|" + cls, "x(" + std::to_string(a + 1) + ") = " + str(rhs[a]) + " reference " + str((double)ref) + " for " + laystr(l)); bi = n + 1; break; } }
+    }
+    for (int self = 0; self < 2; self++) {
+      C("transitions");
+      Env Z; if (self) { Z = ch; Z.inverse(Z); } else Z.inverse(ch);
+      bool okz = (int)Z.dim() == n; if (!okz) bad("envelope", "Envelope::inverse", "covariance|" + cls, "dim");
+      for (int a = 1; a <= n && okz; a++) for (int b = 1; b <= a; b++) {
+        const double* z = Z.element(a, b); const double* f = ch.element(a, b);
+        if ((z == nullptr) != (f == nullptr)) { bad("envelope", "Envelope::inverse", "covariance|" + cls, "envelope of the inverse differs from the envelope of the factor"); okz = false; break; }
+        if (z && !(fabsl(*z - Ci(a - 1, b - 1)) <= itol)) { bad("envelope", std::string("Envelope::inverse") + (self ? "(self)" : ""), "covariance|" + cls, "Z(" + std::to_string(a) + "," + std::to_string(b) + ") = " + str(*z) + " reference " + str((double)Ci(a - 1, b - 1)) + " (cholDec tolerance " + (si ? str(ctol) : std::string("default")) + ") for " + laystr(l)); okz = false; break; }
       }
     }
   }
